@@ -129,7 +129,8 @@ def r2_computing_typestate(ctx):
             else:
                 ctx.ob("C06.R2", f"{RS}::LazySeq::{f.name}::Computing is always followed by a definite state", RS, line, True)
     if n == 0:
-        raise AnalysisError("no `*state = LazySeqState::Computing` store found")
+        # no Computing typestate at all: nothing can be left dangling (R3 judges the missing take-then-call)
+        ctx.ob("C06.R2", f"{RS}::LazySeq::no Computing store (typestate not used)", RS, 0, True)
     # readers of Computing: what do they answer?
     ctx.note("C06.R2: Computing is read by _compute_seq (answers None) and seq (answers None)")
 
@@ -239,7 +240,78 @@ def r5_laziness_discipline(ctx):
     ctx.ob("C06.R5", f"{RT}::concat_from_seq::iterator pipeline", RT, cf.lineno, not bad, "" if not bad else f"`{bad[0]}` realises the argument sequence")
 
 
+EAGER = {"vec", "doall", "dorun", "mapv", "filterv", "into", "count", "last", "reverse", "sort", "apply", "reduce", "python/list", "python/tuple", "python/len"}
+EAGER_OK = {("concat", "apply"), ("mapcat", "apply"), ("interleave", "apply"), ("map", "apply"), ("flatten", "apply")}
+
+
+def _rebound_seq_names(arity_body):
+    """Names bound by (when-let [X (seq ..)] ..) / (let [X (seq ..)] ..) / (if-let ..) in a body."""
+    out = set()
+    for b in arity_body:
+        for f in L.walk(b):
+            if L.head(f) in ("when-let", "if-let", "let", "let*", "loop") and len(f.items) > 1 and isinstance(f.items[1], L.Vec):
+                bs = f.items[1].items
+                for k, v in zip(bs[0::2], bs[1::2]):
+                    if isinstance(k, L.Sym) and L.head(v) in ("seq", "map"):
+                        out.add(k.val)
+    return out
+
+
+@rule("C06.R6", floor=20)
+def r6_demand_driven_seq_functions(ctx):
+    """Inside the lazy bodies of the core seq functions nothing realises a whole collection (vec,
+    doall, count, into, reverse ... applied to an input or to a lazy intermediate), and a collection
+    parameter that was tested with (seq coll) is walked through that seq (when-let [coll (seq coll)]):
+    calling first / rest on the raw parameter coerces a non-seq iterable again for every access, so
+    a producer runs more than once and head and tail may come from different iterations."""
+    defs = L.top_defs(ctx.lisp(CORE))
+    for name in SEQ_FNS:
+        d = defs.get(name)
+        if d is None:
+            raise AnalysisError(f"anchor vanished: core.lpy::{name}")
+        problems = []
+        for params, body in L.fn_arities(d):
+            pnames = {p.val for p in params.items if isinstance(p, L.Sym) and p.val != "&"}
+            coll_params = {p for p in pnames if p in ("coll", "colls", "c1", "c2", "s")}
+            for b in body:
+                lazies = [f for f in L.walk(b) if L.head(f) in ("lazy-seq", "lazy-cat")]
+                for lz in lazies:
+                    for f in L.walk(lz):
+                        h = L.head(f)
+                        if h in EAGER and (name, h) not in EAGER_OK:
+                            # only an *input* collection is unbounded: a parameter named like one, of the
+                            # defn or of an enclosing local fn, reached without a bounding operator
+                            local_params = set(coll_params)
+                            for a in L.ancestors(f):
+                                if L.head(a) in ("fn", "fn*"):
+                                    pv = next((x for x in a.items[1:3] if isinstance(x, L.Vec)), None)
+                                    if pv is not None:
+                                        local_params |= {p.val for p in pv.items if isinstance(p, L.Sym) and p.val in ("coll", "colls")}
+                            hit = None
+                            for x in L.walk(f):
+                                if isinstance(x, L.Sym) and x.val in local_params and x is not f.items[0]:
+                                    bounded = any(L.head(a) in ("take", "take-while", "first", "second", "nth", "peek") for a in L.ancestors(x) if any(y is f for y in L.ancestors(a)) or a is f)
+                                    if not bounded:
+                                        hit = x
+                            if hit is not None:
+                                problems.append(f"`{f.text()[:50]}` realises the input `{hit.val}` inside the lazy body: every producer runs one step ahead of (or regardless of) demand")
+            # seq-once: a parameter tested with (seq p) but walked raw
+            rebound = _rebound_seq_names(body)
+            for b in body:
+                tests_seq = {x.items[1].val for x in L.walk(b) if L.head(x) == "seq" and len(x.items) == 2 and isinstance(x.items[1], L.Sym) and x.items[1].val in coll_params and L.head(x.parent) in ("when", "if", "when-not", "if-not")}
+                for p in tests_seq - rebound:
+                    uses = [x for x in L.walk(b) if L.head(x) in ("first", "rest", "next") and len(x.items) == 2 and L.is_sym(x.items[1], p)]
+                    if uses:
+                        problems.append(f"`{p}` is tested with (seq {p}) but then walked raw (`{uses[0].text()}`): a non-seq iterable is coerced again for every access")
+        ctx.ob("C06.R6", f"{CORE}::{name}::demand-driven", CORE, d.line, not problems, "; ".join(problems[:2]))
+
+
 SELFTEST = [
+    {"name": "seeded C06/a: map realises all collections at every step", "file": CORE, "expect": "C06.R6",
+     "old": "                        (let [colls (map seq colls)]", "new": "                        (let [colls (vec (map seq colls))]"},
+    {"name": "seeded C06/b: filter walks the raw parameter", "file": CORE, "expect": "C06.R6",
+     "old": "    (when-let [coll (seq coll)]\n      (if (pred (first coll))\n        (cons (first coll) (filter pred (rest coll)))\n        (filter pred (rest coll)))))))",
+     "new": "    (when (seq coll)\n      (if (pred (first coll))\n        (cons (first coll) (filter pred (rest coll)))\n        (filter pred (rest coll)))))))"},
     {"name": "callback under guard in a new place", "file": RS, "expect": "C06.R1",
      "old": "        let mutex = self.lock.lock();\n        let state = mutex.deref().borrow();\n        Ok(PyBool::new(py, matches!(*state, LazySeqState::Realized(_))))",
      "new": "        let mutex = self.lock.lock();\n        let state = mutex.deref().borrow();\n        let _ = self.meta.getattr(py, \"x\");\n        Ok(PyBool::new(py, matches!(*state, LazySeqState::Realized(_))))"},
